@@ -295,11 +295,17 @@ int64_t cmb_resource_preempt(struct cmb_resource *rp)
         cmi_process_remove_holdable(victim, hrp);
         cmi_process_cancel_awaiteds(victim);
         rp->holder = NULL;
+        /*
+         * The notice goes ahead of anything entered later for this instant: an
+         * interrupt of higher priority would otherwise reach the victim first
+         * and cancel the notice with its other pending wakeups, and the victim
+         * would go on to release a resource that is no longer its own.
+         */
         (void)cmb_event_schedule(wakeup_event_preempt,
                                  (void *)victim,
                                  (void *)CMB_PROCESS_PREEMPTED,
                                  cmb_time(),
-                                 victim->priority);
+                                 INT64_MAX);
 
         /* Take its place */
         resource_grab(rp, pp);
